@@ -233,6 +233,11 @@ ARetMem(T) == T.k # "void" /\ ARet(T) = <<"mem">>
 ANarrow(T) == CASE T.k = "bool" -> "zx8" [] T.k = "char" -> "sx8" [] T.k = "uchar" -> "zx8"
                 [] T.k = "short" -> "sx16" [] T.k = "ushort" -> "zx16" [] OTHER -> "none"
 
+(* Level A: the state a callee hands back unchanged (psABI 3.2.1, figure 3.4).  The registers are observed by the
+   gcc-compiled callers of the replay (global register variables around every call), the floating-point control
+   state by fnstcw / stmxcsr around every call; FpCtl.tla models the one place where chibicc changes it. *)
+CalleeSaved == {"rbx", "rbp", "rsp", "r12", "r13", "r14", "r15", "x87 control word", "MXCSR control bits"}
+
 (* Level A: va_list (3.5.7).  v = [gp, fp, ovf]; register save area: gp i at 8i, xmm i at 48+16i;
    ovf is relative to the start of the memory-argument area *)
 VaInitA(a) == [gp |-> 8 * a.gp, fp |-> 48 + 16 * a.sse, ovf |-> a.stk, okc |-> TRUE, oko |-> TRUE]
